@@ -1,4 +1,5 @@
-"""Generators for the inline-bytes families: strings, relocs_raw, relocs_rawat, relocs_hist, relocs_build."""
+"""Generators for the inline-bytes families: strings, relocs_raw, relocs_rawat, relocs_hist, relocs_build, and the
+relocation directory extracted from images (`relocs <k> dump`)."""
 import itertools, struct
 
 
@@ -233,6 +234,105 @@ def gen_relocs_build(rng, tier):
             tys[rng.randrange(k)] = rng.choice([0, 16, 255])      # outside the documented precondition
         cases.append(["relocs_build " + ",".join("0x%x:%d" % (r, t) for r, t in zip(rvas, tys))])
     return cases
+
+
+def gen_relocs_image(rng, tier):
+    """EXTRACTION (`Pe::base_relocs`, src/pe64/base_relocs.rs): images whose data directory 5 points at a relocation
+    directory inside a section, dumped through `relocs <k> dump` (the blocks with their references, the flattened
+    entries, the window the directory occupies) on the file and on the mapped image, PE32 and PE32+, through the
+    specific constructors and the wrappers.  Directory `Size`: exact, 0, odd, cut, reaching beyond the section / the
+    file / the image; `VirtualAddress`: 0, not dword aligned, in the virtual-only tail of the section, beyond the image;
+    data directory array too short for slot 5; raw data of the section not dword aligned in the file"""
+    from .pe import PE, Section, rand_bytes
+    from .gen_img import img_line, load_view
+    cases = []
+    variants = ["exact", "exact", "zero", "odd", "cut", "beyond_sec", "huge", "flush_end", "va0", "va_mis", "va_tail", "va_out",
+                "short_dd", "prd_mis", "illformed", "illformed"]
+    reps = 2 if tier == "quick" else 40
+    for bits in (32, 64):
+        for var in variants:
+            for _ in range(reps):
+                pe = PE(bits)
+                pe.e_lfanew = rng.choice([0x40, 0x80, 0x48])
+                pe.file_align = 0x200
+                pe.section_align = rng.choice([0x1000, 0x200])
+                cap = 0x200
+                wf = var != "illformed"
+                d = _rand_dir(rng, RAW_SIZES, wf=True if wf else None)
+                if var == "flush_end":
+                    pos = cap - len(d)
+                    pos -= pos % 4
+                    d = d + bytes(cap - pos - len(d))          # (a tail shorter than a header keeps the directory well formed)
+                else:
+                    pos = rng.choice([0, 4, 0x40, 0x100])
+                body = bytearray(rand_bytes(rng, cap))
+                body[pos:pos + len(d)] = d
+                text_va = max(pe.section_align, 0x400)
+                reloc_va = text_va + max(pe.section_align, 0x200)
+                prd0 = 0x400
+                rprd = prd0 + 0x200 + (2 if var == "prd_mis" else 0)
+                vs = cap
+                if var == "va_tail":
+                    vs = cap + 0x100                             # virtual-only tail: zero fill in the file, zeros when mapped
+                pe.sections = [Section(b".text", va=text_va, vs=0x200, prd=prd0, rs=0x200, data=rand_bytes(rng, 0x200)),
+                               Section(b".reloc", va=reloc_va, vs=vs, prd=rprd, rs=cap, chars=0x42000040, data=bytes(body))]
+                va, size = reloc_va + pos, len(d)
+                if var == "zero":
+                    size = 0
+                elif var == "odd":
+                    size = max(0, size + rng.choice([-1, 1, -3, 3, 2, -2])) if rng.random() < 0.7 else rng.choice([1, 3, 5, 7, 9, 11, 13])
+                elif var == "cut":
+                    size = rng.randrange(0, size + 1)
+                elif var == "beyond_sec":
+                    size = cap - pos + rng.choice([1, 4, 8, 0x100])
+                elif var == "huge":
+                    size = rng.choice([0x10000, 0x7FFFFFFF, U32_, U32_ - 3])
+                elif var == "va0":
+                    va = 0
+                elif var == "va_mis":
+                    va += rng.choice([1, 2, 3])
+                elif var == "va_tail":
+                    va = reloc_va + cap + rng.choice([0, 4, 0x80]); size = rng.choice([0, 8, 12])
+                elif var == "va_out":
+                    va = rng.choice([reloc_va + 0x10000, U32_ - 3, U32_ - 11, 0x80000000])
+                elif var == "short_dd":
+                    pe.num_rva = rng.choice([0, 1, 5])
+                pe.dirs[5] = (va & U32_, size & U32_)
+                data = pe.build()
+                view = load_view(pe, data)
+                for mode, buf in (("f", data), ("v", view)):
+                    if buf is None:
+                        continue
+                    k, kw = "%s%d" % (mode, bits), "w" + mode
+                    al = rng.choice([0, 4, 8, 12])
+                    cases.append([img_line(rng, buf, al, rng.choice("se")), "from_bytes " + k, "relocs %s dump" % k, "relocs %s dump" % kw])
+    # the images of the non-vacuity examples of C14_extraction (byte arrays read out of the Lean source)
+    import os, re
+    lean = os.path.join(os.path.dirname(os.path.dirname(os.path.abspath(__file__))), "lean", "PeliteModel", "Lemmas")
+    imgs = {}
+    for fn in ("RelocsFold.lean", "DirsExamples.lean"):
+        try:
+            txt = open(os.path.join(lean, fn)).read()
+        except OSError:
+            continue
+        for m in re.finditer(r"def (\w+) : Bytes := #\[([^\]]*)\]", txt):
+            imgs[m.group(1)] = bytes(int(x) for x in m.group(2).replace("\n", " ").split(",") if x.strip())
+
+    def patched(b, slot):
+        b = bytearray(b)
+        b[100:112] = bytes([0, 0x10, 0, 0, 12, 0, 0, 0, 4, 0x30, 0, 0])
+        b[slot:slot + 8] = struct.pack("<II", 100, 12)
+        return bytes(b)
+    plan = [("relocFile32", None, ["f32", "wf"]), ("relocFile64", None, ["f64", "wf"]), ("demoBytes", 224, ["v32", "wv"]), ("demoBytes64", 240, ["v64", "wv"])]
+    for name, slot, ks in plan:
+        if name in imgs:
+            data = imgs[name] if slot is None else patched(imgs[name], slot)
+            for al in (0, 8):
+                cases.append([img_line(rng, data, al, "e"), "from_bytes " + ks[0]] + ["relocs %s dump" % k for k in ks])
+    return cases
+
+
+U32_ = 0xFFFFFFFF
 
 
 def gen_fmt_cstr(rng, tier):
